@@ -21,6 +21,7 @@ func checkC15(c *Check) {
 	// NOTIFICATION
 	c.notificationEncode("C15.1 notification-encode")
 	c.codecContracts("C15.1 codec-effects")
+	c.accumulatorsStartEmpty("C15.1 accumulators", "openMessage.encode", "capabilityOptionalParam.encode", "decodeOptionalParams", "capabilityOptionalParam.decode", "openMessage.getCapabilities", "DecodeAddPathTuples", "NewAddPathCapability", "newOpenMessage")
 	c.tlvExactFit("C15.1 optional-parameters exact-fit", "decodeOptionalParams", 0, "capabilityOptionalParam.decode", c.P.MustConst("capabilityOptionalParamType"))
 	c.tlvExactFit("C15.1 capabilities exact-fit", "capabilityOptionalParam.decode", 1, "", -1)
 	c.specConstants("C15.1 spec-constants", "openMessageType", "updateMessageType", "notificationMessageType", "keepAliveMessageType", "headerLength", "maxMessageLength", "NOTIF_CODE_OPEN_MESSAGE_ERR", "NOTIF_SUBCODE_UNSUPPORTED_VERSION_NUM", "NOTIF_SUBCODE_BAD_PEER_AS", "NOTIF_SUBCODE_BAD_BGP_ID", "NOTIF_SUBCODE_UNSUPPORTED_OPTIONAL_PARAM", "NOTIF_SUBCODE_UNACCEPTABLE_HOLD_TIME", "NOTIF_SUBCODE_UNSUPPORTED_CAPABILITY", "asTrans", "capabilityOptionalParamType", "CAP_FOUR_OCTET_AS", "CAP_MP_EXTENSIONS", "CAP_FOUR_OCTET_AS", "CAP_ADD_PATH", "AFI_IPV4", "AFI_IPV6", "SAFI_UNICAST")
@@ -173,7 +174,11 @@ func (c *Check) capabilityCodec(rule string) {
 					continue
 				}
 				if buf.IsNil() {
-					continue // a bound check failed
+					// a bound check failed: never the "empty" refusal
+					if e := err; e != nil && strings.Contains(e.Key, "empty") {
+						ok, detail = false, "a non-empty capability list is refused as empty"
+					}
+					continue
 				}
 				// wire order: type 2, len(caps), caps
 				good := false
